@@ -759,7 +759,10 @@ def write_cache_time(f: IO[bytes], t: int | float | tuple[int, int]) -> None:
         t = (int(secs), int(nsecs * 1000000000))
     elif not isinstance(t, tuple):
         raise TypeError(t)
-    f.write(struct.pack(">LL", *t))
+    (secs, nsecs) = t
+    # The on-disk fields are 32 bits wide; like git, keep the low 32 bits
+    # of values that do not fit (times before 1970 or after 2106).
+    f.write(struct.pack(">LL", secs & 0xFFFFFFFF, nsecs & 0xFFFFFFFF))
 
 
 def read_cache_entry(
@@ -855,7 +858,8 @@ def write_cache_entry(
             entry.mode,
             entry.uid,
             entry.gid,
-            entry.size,
+            # 32-bit field: like git, store the size modulo 2**32
+            entry.size & 0xFFFFFFFF,
             hex_to_sha(entry.sha),
             flags,
         )
@@ -3221,8 +3225,8 @@ def _stat_matches_entry(
         if int(st.st_mtime) != entry_mtime_sec:
             return False
 
-    # Compare file size
-    if st.st_size != entry.size:
+    # Compare file size. The index stores only the low 32 bits of the size.
+    if (st.st_size & 0xFFFFFFFF) != (entry.size & 0xFFFFFFFF):
         return False
 
     # If all checks pass, file is likely unchanged
